@@ -15,7 +15,7 @@ P=$V/.cache/cov
 BIN=$(dirname $(rustup which --toolchain nightly rustc))/../lib/rustlib/x86_64-unknown-linux-gnu/bin
 rm -rf $P; mkdir -p $P $V/evidence/coverage
 cp /repo/Cargo.lock $V/harness/Cargo.lock
-(cd $V/harness && CARGO_NET_OFFLINE=true RUSTFLAGS="--cfg precis_verif -C instrument-coverage" cargo +nightly build --offline --target-dir $T 2>&1 | tail -2)
+(cd $V/harness && LLVM_PROFILE_FILE="$P/build-%p-%8m.profraw" CARGO_NET_OFFLINE=true RUSTFLAGS="--cfg precis_verif -C instrument-coverage" cargo +nightly build --offline --target-dir $T 2>&1 | tail -2)
 for id in $IDS; do
   VERIF_HARNESS_BIN=$T/debug/harness LLVM_PROFILE_FILE="$P/$id-%p-%8m.profraw" $V/bin/check $id --tier $TIER 2>&1 | tail -1
 done
